@@ -14,22 +14,22 @@ import (
 
 // Opts13 selects the shape classes of one message.
 type Opts13 struct {
-	MaxDepth int  // MIME nesting (0 = no multipart, no embedded message)
-	LF       bool // bare LF line endings throughout
-	Odd      bool // unusual but legal header forms (no space after the colon, duplicates in other case, long lines, 8-bit)
-	EmptyField bool // with Odd: a header field with an empty value ("X-Empty:" CRLF)
-	Big      int  // if > 0 one leaf carries about this many bytes of poorly compressible data
-	Binary   bool // one leaf may carry arbitrary bytes (no NUL)
-	NoBody   bool // the top-level message may end right after its header (no blank line)
+	MaxDepth       int  // MIME nesting (0 = no multipart, no embedded message)
+	LF             bool // bare LF line endings throughout
+	Odd            bool // unusual but legal header forms (no space after the colon, duplicates in other case, long lines, 8-bit)
+	EmptyField     bool // with Odd: a header field with an empty value ("X-Empty:" CRLF)
+	Big            int  // if > 0 one leaf carries about this many bytes of poorly compressible data
+	Binary         bool // one leaf may carry arbitrary bytes (no NUL)
+	NoBody         bool // the top-level message may end right after its header (no blank line)
 	PrefixBoundary bool // a nested multipart may use a boundary that extends its parent's boundary
 }
 
 type b13 struct {
 	builder
-	o      Opts13
-	nl     string
+	o       Opts13
+	nl      string
 	bigUsed bool
-	bounds []string
+	bounds  []string
 }
 
 func (b *b13) w(s string) { b.buf.WriteString(s) }
@@ -214,17 +214,14 @@ func (b *b13) entity(p *Part, depth int, top bool) {
 	switch kind {
 	case 0:
 		p.Type = "text/plain"
-		hasHeader := len(p.HeaderFields) > 0
 		if r.P(2, 3) {
 			sub := []string{"plain", "html", "x-sim"}[r.Intn(3)]
 			p.Type = "text/" + sub
 			name := []string{"Content-Type", "Content-type", "CONTENT-TYPE"}[r.Weighted([]int{6, 1, 1})]
 			b.fld(p, name, " ", p.Type+"; charset=utf-8")
-			hasHeader = true
 		}
 		if r.P(1, 4) {
 			b.fld(p, "Content-Transfer-Encoding", " ", "8bit")
-			hasHeader = true
 		}
 		if top && b.o.NoBody && r.P(1, 2) {
 			// header only, no blank line
@@ -232,7 +229,7 @@ func (b *b13) entity(p *Part, depth int, top bool) {
 			p.End = b.buf.Len()
 			return
 		}
-		_ = hasHeader
+		// (a part without any header field starts with the blank line)
 		b.w(b.nl)
 		p.HeaderEnd = b.buf.Len()
 		b.leafBody(!top)
